@@ -670,6 +670,14 @@ func (ch *child) runGroup(g int, skip int, fuzzPerGroup int) {
 		kind, m := byteMutant(r, seed, other)
 		run(kind, m)
 	}
+	if c.text && g < len(ch.sched) {
+		// a short number with a huge decimal exponent: a few bytes must not cost
+		// minutes of CPU or hundreds of megabytes (one literal only - a decoder that
+		// does expand it needs about a minute per call)
+		for _, lit := range []string{"1E22538963", "0e99999999", `{"type":"Integer","value":"1e99999999"}`} {
+			run("hostile-number", []byte(lit))
+		}
+	}
 	for k := 0; k < 2; k++ {
 		n := r.Intn(300)
 		raw := r.Bytes(n)
